@@ -2,7 +2,9 @@
  * UDP sockets to a mock DNS server thread inside this process (no network needed).
  *
  * case:  evsys=<epoll|poll|select> timeout=<ms> tries=<n> flags=<stayopen,...> udpmaxq=<n> |step;step;...
- * steps: q:<tok>:<name>     ares_query_dnsrec(name, IN, A); names starting with "ans" are answered
+ * steps: qs:<tok>:<name>:<ms> like q, but the completion callback (which runs on the event thread) takes
+ *                           <ms> milliseconds: other deadlines may expire while it runs
+ *        q:<tok>:<name>     ares_query_dnsrec(name, IN, A); names starting with "ans" are answered
  *                           (NOERROR, one A record), names starting with "sil" are ignored by the server,
  *                           names starting with "srvfail" get SERVFAIL
  *        sleep:<ms>         real-time sleep of the application thread (which otherwise does nothing)
@@ -99,6 +101,7 @@ typedef struct {
   int  status;
   long t_start;
   long t_done;
+  long slow_ms;
 } tok_t;
 
 static tok_t           toks[MAXTOK];
@@ -119,6 +122,7 @@ static void query_cb(void *arg, ares_status_t status, size_t timeouts, const are
     t->t_done = now_ms();
   }
   pthread_mutex_unlock(&tok_mu);
+  if (t->slow_ms > 0) usleep((useconds_t)t->slow_ms * 1000);
 }
 
 #ifdef CARES_VERIF
@@ -204,9 +208,12 @@ static void run_case(long k, char *line)
     int  tk;
     char name[128];
     long ms;
-    if (sscanf(tokp, "q:%d:%100s", &tk, name) == 2 && tk >= 0 && tk < MAXTOK) {
+    long slow = 0;
+    if ((sscanf(tokp, "qs:%d:%100[^:]:%ld", &tk, name, &slow) == 3 || (slow = 0, sscanf(tokp, "q:%d:%100s", &tk, name) == 2)) && tk >= 0 && tk < MAXTOK) {
+      if (slow > 1000) slow = 1000;
       pthread_mutex_lock(&tok_mu);
       toks[tk].used    = 1;
+      toks[tk].slow_ms = slow;
       toks[tk].t_start = now_ms();
       pthread_mutex_unlock(&tok_mu);
 #ifdef CARES_VERIF
